@@ -171,7 +171,8 @@ def check_case(ctx, case):
                       ("diff_early_component_at", "diff_early_component_then_at", "diff_early_at_component", "component_early_after_expr")):
             vals = {rn: outs[rn].numbits() for rn in group if rn in outs}
             if len(set(vals.values())) > 1:
-                ctx.violation("same_path_routes_differ", f"{what}: routes that differ only in spelling returned different numbers: {vals}")
+                # the property promises agreement up to rounding (judged above), not bit-identity: reported, not a verdict
+                ctx.count("same_spelling_routes_not_bit_identical")
         if ctx.rng.random() < 0.02:
             ctx.sample({"spec": S.show(s), "variable": var, "point": S.show_point(p), "routes": {k: o.brief() for k, o in list(outs.items())[:17]}})
 
@@ -234,8 +235,16 @@ def _structural(ctx, s, mode, var, names, pts, what0):
                 ctx.count("located_components_compared")
                 if va.kind != "num" or vb.kind != "num":
                     ctx.violation("located_component_failed", f"{what0} at {S.show_point(p)}: component {v}: {va.brief()} / {vb.brief()}")
-                elif not early_d and va.numbits() != vb.numbits():
-                    ctx.violation("differential_at_components_differ", f"{what0} at {S.show_point(p)}: Differential(e).at(p).component({v}) = {va.value!r} but LocatedDifferential(e, p).component({v}) = {vb.value!r}")
+                elif va.numbits() != vb.numbits():
+                    if v in names:
+                        _, d_, da_, _ = R.NORMAL.derivative(s, p, v, res=res)
+                        if not (R.too_big(d_, R._DBIG_RAW) or R.too_big(da_, R._DBIG_RAW)) and C.d_decisive(d_, da_):
+                            enc_ = R.slack_interval(d_, da_, 16)
+                            if not (R.contains(enc_, va.value) and R.contains(enc_, vb.value)):
+                                ctx.violation("differential_at_components_differ", f"{what0} at {S.show_point(p)}: Differential(e, compute_early={early_d}).at(p).component({v}) = {va.value!r}, LocatedDifferential(e, p).component({v}) = {vb.value!r}, true partial in [{R.lo_float(enc_)!r}, {R.hi_float(enc_)!r}]")
+                    elif va.value != vb.value:
+                        ctx.violation("differential_at_components_differ", f"{what0} at {S.show_point(p)}: absent variable {v}: {va.value!r} vs {vb.value!r}")
+                    ctx.count("located_components_not_bit_identical")
 
 
 def deciding(m):
